@@ -37,18 +37,22 @@ PROPS = {
                         'PolyN::evaluate (iterator fold) is outside the Verus subset: decided only by the bounded Kani harness when present'],
     },
     'C02': {
-        'verus': [],
+        'verus': ['u_pwsel'],
         'kani': {
             'quick': [{'set': 'c02', 'jobs': 8, 'timeout': 1200,
-                       'harnesses': hs('c02_direct_n', 'piecewise', [1, 2, 3, 4], 'segments N = {n} (loops unwound)', PW_EVAL)}],
+                       'harnesses': hs('c02_direct_n', 'piecewise', [1, 2, 3, 4, 5], 'segments N = {n} (loops unwound)', PW_EVAL)}],
             'thorough': [{'set': 'c02', 'jobs': 8, 'timeout': 3000,
                           'harnesses': hs('c02_direct_n', 'piecewise', [1, 2, 3, 4, 5], 'segments N = {n} (loops unwound)', PW_EVAL)}],
         },
         'probe': False,
-        'level': 'other',
-        'explanation': 'Kani harness over the real Piecewise::evaluate with recording Tag pieces: for symbolic sorted non-NaN ends and EVERY f64 x the '
-                       'selected piece is the first with end > x else the last, evaluated at x itself. Bounded in the number of segments.',
-        'assumptions': [PARAM, 'bounded: number of segments N <= 4 (quick) / 5 (thorough)'],
+        'level': 'proof',
+        'explanation': 'Verus contract on the real body of <Piecewise<T> as Evaluate>::evaluate (abstract piece type, ANY number of segments, EVERY f64 x): '
+                       'r == segments[sel(segments, x)].poly.ev(x) with sel = first index whose end is > x (machine comparison) else the last; the assert! is '
+                       'proved not to fire for non-empty input. Cross-checked by Kani harnesses on the compiled crate with recording Tag pieces (N <= 4/5).',
+        'assumptions': [FM_BITS, FM_ORD, PARAM,
+                        'trusted contract (assume_specification) for <slice::Iter as Iterator>::position; vstd contracts for slice::iter, slice::last, Option::unwrap, Vec indexing',
+                        'extraction binds the receiver temporary: `v.iter().position(c)` is verified as `{ let mut it = v.iter(); it.position(c) }` with the closure annotated by its ensures',
+                        'Kani cross-check bounded: number of segments N <= 5 (quick) / 6 (thorough)'],
     },
     'C03': {
         'verus': [],
